@@ -33,6 +33,8 @@ pub enum Tail {
     CallK(String, Vec<String>),
     /// loop body: next iteration with the mutated variables
     LoopNext(Vec<String>),
+    /// branch whose value is bound by a `let`: continuation applied to (value, mutated variables)
+    CallKV(String, Vec<String>),
 }
 
 pub struct Tr<'a> {
@@ -50,7 +52,7 @@ pub struct Tr<'a> {
 
 const RESERVED: &[&str] = &[
     "at", "as", "in", "end", "fun", "match", "return", "type", "mod", "by", "for", "if", "then", "else", "let", "fix", "with", "where", "using",
-    "set", "exists", "forall", "bytes", "share", "enc", "pairing", "length", "repr", "sha", "xof", "fs", "eta", "peek", "frame", "rng", "hmap", "O",
+    "self", "set", "exists", "forall", "bytes", "share", "enc", "pairing", "length", "repr", "sha", "xof", "fs", "eta", "peek", "frame", "rng", "hmap", "O",
     "C", "K", "E", "M", "N", "S", "res", "err", "flow", "bind", "bs", "app", "rev", "map", "combine", "firstn", "skipn", "repeat", "fst", "snd", "option", "list", "nat", "bool", "unit", "tt", "true", "false", "wld",
 ];
 
@@ -291,6 +293,11 @@ impl<'a> Tr<'a> {
             Tail::Then(t) => t.clone(),
             Tail::CallK(k, vars) => format!("{} {}", k, paren(&tuple_val(vars))),
             Tail::LoopNext(vars) => format!("Val (Next {})", paren(&tuple_val(vars))),
+            Tail::CallKV(k, vars) => {
+                let mut all = vec![value.unwrap_or("tt").to_string()];
+                all.extend(vars.iter().cloned());
+                format!("{} {}", k, paren(&tuple_val(&all)))
+            }
         })
     }
 
@@ -305,7 +312,7 @@ impl<'a> Tr<'a> {
         let Some((s, rest)) = stmts.split_first() else {
             return self.fall(tail, None);
         };
-        let value_pos = rest.is_empty() && matches!(tail, Tail::FnRet | Tail::Yield(_));
+        let value_pos = rest.is_empty() && matches!(tail, Tail::FnRet | Tail::Yield(_) | Tail::CallKV(_, _));
         match s {
             syn::Stmt::Item(syn::Item::Const(_)) => self.stmts(rest, tail),
             syn::Stmt::Item(_) => Err("nested item".into()),
@@ -425,21 +432,57 @@ impl<'a> Tr<'a> {
             }
             syn::Pat::TupleStruct(ts) => {
                 let name = ts.path.segments.last().unwrap().ident.to_string();
+                if let Some((ctor, payload)) = self.variant_ctor(&ts.path) {
+                    let mut parts = vec![];
+                    for e in &ts.elems {
+                        parts.push(self.pat(e, &payload)?.trim_start_matches('\'').to_string());
+                    }
+                    return Ok(format!("({} {})", ctor, parts.join(" ")));
+                }
                 let inner = match ty {
                     RTy::Opt(t) | RTy::Res(t) => (**t).clone(),
                     _ => RTy::Unknown,
                 };
                 let mut parts = vec![];
                 for e in &ts.elems {
-                    parts.push(self.pat(e, &inner)?.trim_start_matches('\'').to_string());
+                    let x = self.pat(e, &inner)?.trim_start_matches('\'').to_string();
+                    parts.push(if x.contains(' ') && !x.starts_with('(') { format!("({})", x) } else { x });
                 }
                 match name.as_str() {
                     "Some" | "Ok" | "Err" => format!("{} {}", name, parts.join(" ")),
                     _ => return Err(format!("pattern constructor `{}`", name)),
                 }
             }
+            syn::Pat::Struct(ps) => {
+                // ProofOfKnowledge::Basic { u, v }
+                let segs: Vec<String> = ps.path.segments.iter().map(|s| s.ident.to_string()).collect();
+                let owner = if segs[0] == "Self" { self.f.container.clone() } else { segs[0].clone() };
+                if segs.len() == 2 && matches!(crate::wrappers::wrapper(&owner), Some(crate::wrappers::WKind::Pok)) {
+                    let sc = crate::wrappers::scheme_ctor(&segs[1]).ok_or("scheme variant")?;
+                    let mut u = "_".to_string();
+                    let mut v = "_".to_string();
+                    for fp in &ps.fields {
+                        let n = match &fp.member {
+                            syn::Member::Named(i) => i.to_string(),
+                            _ => return Err("pattern field".into()),
+                        };
+                        let p = self.pat(&fp.pat, &RTy::SigPt)?;
+                        match n.as_str() {
+                            "u" => u = p,
+                            "v" => v = p,
+                            _ => return Err("pattern field".into()),
+                        }
+                    }
+                    return Ok(format!("(mkpok {} {} {})", sc, u, v));
+                }
+                return Err("struct pattern".into());
+            }
             syn::Pat::Path(pp) => {
                 let name = pp.path.segments.last().unwrap().ident.to_string();
+                let first = pp.path.segments.first().unwrap().ident.to_string();
+                if first == "SignatureSchemes" {
+                    return crate::wrappers::scheme_ctor(&name).map(|s| s.to_string()).ok_or_else(|| "scheme variant".to_string());
+                }
                 match name.as_str() {
                     "None" => "None".into(),
                     _ => return Err(format!("pattern path `{}`", name)),
@@ -451,6 +494,20 @@ impl<'a> Tr<'a> {
             }
             _ => return Err("pattern form".into()),
         })
+    }
+
+    /// `Signature::Basic` / `Self::Basic` of a scheme-tagged enum: (constructor applied to the scheme, payload type)
+    pub fn variant_ctor(&self, path: &syn::Path) -> Option<(String, RTy)> {
+        let segs: Vec<String> = path.segments.iter().map(|s| s.ident.to_string()).collect();
+        if segs.len() != 2 {
+            return None;
+        }
+        let owner = if segs[0] == "Self" { self.f.container.clone() } else { segs[0].clone() };
+        if let Some(crate::wrappers::WKind::Tagged(_, ctor, payload)) = crate::wrappers::wrapper(&owner) {
+            let sc = crate::wrappers::scheme_ctor(&segs[1])?;
+            return Some((format!("{} {}", ctor, sc), payload));
+        }
+        None
     }
 
     fn declare_pat(&mut self, p: &syn::Pat, ty: RTy) {
@@ -488,6 +545,13 @@ impl<'a> Tr<'a> {
                 self.wrap(&pre, r)
             }
             "assert" | "assert_eq" => Err("assert! (a panic in every build) is outside the fragment".into()),
+            "matches" if rest.is_empty() => {
+                let e = syn::Expr::Macro(syn::ExprMacro { attrs: vec![], mac: mac.clone() });
+                let (v, _) = self.expr(&e)?;
+                let pre = self.take_pre();
+                let t = self.fall(tail, Some(&v))?;
+                self.wrap(&pre, t)
+            }
             _ => Err(format!("macro `{}!` in statement position", name)),
         }
     }
@@ -520,7 +584,10 @@ impl<'a> Tr<'a> {
             syn::Expr::Let(l) => {
                 let (v, ty) = self.expr(&l.expr)?;
                 let pre = self.take_pre();
-                (IfHead::Let(v, ty, (*l.pat).clone()), pre)
+                self.scopes.push(HashMap::new());
+                let ptxt = self.pat(&l.pat, &ty);
+                self.scopes.pop();
+                (IfHead::Let(v, ty, (*l.pat).clone(), ptxt?.trim_start_matches('\'').to_string()), pre)
             }
             c => {
                 let v = self.expr(c)?.0;
@@ -601,22 +668,12 @@ impl<'a> Tr<'a> {
     }
 
     fn stmts_value_k(&mut self, stmts: &[syn::Stmt], k: &str, mv: &[String]) -> R<String> {
-        // only a bare value expression is supported in a branch bound by a `let`
-        let call = |v: &str| format!("{} {}", k, paren(&tuple_val(&[vec![v.to_string()], mv.to_vec()].concat())));
-        match stmts {
-            [] => Ok(call("tt")),
-            [syn::Stmt::Expr(e, None)] => {
-                let (v, _) = self.expr(e)?;
-                let pre = self.take_pre();
-                self.wrap(&pre, call(&v))
-            }
-            _ => Err("branch with statements before its value, bound by a let".into()),
-        }
+        self.stmts(stmts, &Tail::CallKV(k.to_string(), mv.to_vec()))
     }
 
     fn scoped_head(&mut self, head: &IfHead, stmts: &[syn::Stmt], tail: &Tail) -> R<String> {
         self.scopes.push(HashMap::new());
-        if let IfHead::Let(_, ty, pat) = head {
+        if let IfHead::Let(_, ty, pat, _) = head {
             let _ = self.pat(pat, ty)?;
         }
         let r = self.stmts(stmts, tail);
@@ -626,7 +683,7 @@ impl<'a> Tr<'a> {
     fn scoped_head_value(&mut self, head: &IfHead, stmts: &[syn::Stmt], tail: &Tail) -> R<String> {
         let Tail::CallK(k, mv) = tail else { return Err("internal: scoped_head_value".into()) };
         self.scopes.push(HashMap::new());
-        if let IfHead::Let(_, ty, pat) = head {
+        if let IfHead::Let(_, ty, pat, _) = head {
             let _ = self.pat(pat, ty)?;
         }
         let r = self.stmts_value_k(stmts, k, mv);
@@ -803,15 +860,14 @@ impl<'a> Tr<'a> {
 
 pub enum IfHead {
     Cond(String),
-    Let(String, RTy, syn::Pat),
+    Let(String, RTy, syn::Pat, String),
 }
 
 impl IfHead {
     fn render(&self, a: &str, b: &str) -> String {
         match self {
             IfHead::Cond(c) => format!("if {} then\n{}\nelse\n{}", c, indent(a, 2), indent(b, 2)),
-            IfHead::Let(v, _, pat) => {
-                let p = pat_text(pat);
+            IfHead::Let(v, _, _, p) => {
                 format!("match {} with\n| {} =>\n{}\n| _ =>\n{}\nend", v, p, indent(a, 2), indent(b, 2))
             }
         }
@@ -907,14 +963,19 @@ pub fn diverges(stmts: &[syn::Stmt]) -> bool {
 }
 
 pub fn contains_return(e: &syn::Expr) -> bool {
-    struct V(bool);
+    struct V(bool, bool);
     impl<'ast> Visit<'ast> for V {
         fn visit_expr_return(&mut self, _: &'ast syn::ExprReturn) {
             self.0 = true;
         }
+        fn visit_expr_try(&mut self, _: &'ast syn::ExprTry) {
+            if self.1 {
+                self.0 = true;
+            }
+        }
         fn visit_expr_closure(&mut self, _: &'ast syn::ExprClosure) {}
     }
-    let mut v = V(false);
+    let mut v = V(false, matches!(e, syn::Expr::Match(_) | syn::Expr::If(_)));
     v.visit_expr(e);
     v.0
 }
